@@ -10,7 +10,9 @@ CONSTANTS Offsets,     \* set of TCP priority offsets to enumerate
 Protos(t) == IF t = "relay" THEN {"udp", "dtls", "tcp", "tls"} ELSE {""}
 Combo(t, n, tt, p, c) == [typ |-> t, net |-> n, tt |-> tt, proto |-> p, comp |-> c]
 ComboSet == {Combo(t, "udp", "", p, c) : t \in Types, p \in UNION {Protos(t2) : t2 \in Types}, c \in Comps}
-            \cup {Combo(t, "tcp", tt, p, c) : t \in Types, tt \in {"active", "passive", "so"}, p \in UNION {Protos(t2) : t2 \in Types}, c \in Comps}
+            \cup {Combo(t, "tcp", tt, p, c) : t \in Types, tt \in {"active", "passive", "so", ""}, p \in UNION {Protos(t2) : t2 \in Types}, c \in Comps}
+            \* what decides is the network type: a host candidate on UDP that was given a TCP type is a UDP candidate
+            \cup {Combo("host", "udp", "active", "", c) : c \in Comps}
 Combos == SetToSeq({x \in ComboSet : x.proto \in Protos(x.typ)})
 Exp(x, off) == LET ex == TypePrefExact(x.typ, x.net, off)
                    tp == IF ex THEN TypePref(x.typ, x.net, off) ELSE 0
@@ -38,8 +40,10 @@ PairLaw(i) == \A j \in 1..NP : LET g == PairPts[i] d == PairPts[j] p == PairPrio
    /\ Eq(Add(p, IF Less(g, d) THEN <<1>> ELSE <<>>), Add(PairPrio(d, g), IF Less(d, g) THEN <<1>> ELSE <<>>))   \* role swap changes the tie bit only
 
 \* ---- foundation domain: candidates that share (type, address, network type) and differ elsewhere
-FoundSeq == SetToSeq({[typ |-> t, addr |-> a, net |-> n, port |-> p, comp |-> c] :
-                        t \in Types, a \in {"10.0.0.1", "10.0.0.2", "fd00::1"}, n \in {"udp", "tcp"}, p \in {5000, 5001}, c \in {1, 2}})
+\* (on tcp also the TCP type: the active and the passive candidate of one address share a foundation)
+FoundSeq == SetToSeq({[typ |-> t, addr |-> a, net |-> n, port |-> p, comp |-> c, tt |-> x] :
+                        t \in Types, a \in {"10.0.0.1", "10.0.0.2", "fd00::1"}, n \in {"udp", "tcp"}, p \in {5000, 5001}, c \in {1, 2},
+                        x \in {"", "active", "passive"}} \ {f \in [typ : Types, addr : {"10.0.0.1", "10.0.0.2", "fd00::1"}, net : {"udp"}, port : {5000, 5001}, comp : {1, 2}, tt : {"active", "passive"}] : TRUE})
 
 ASSUME ndJsonSerialize(ComboFile, Combos)
 ASSUME ndJsonSerialize(ExpFile, SetToSeq({Line(off) : off \in Offsets}))
